@@ -298,3 +298,124 @@ Proof.
   assert (Hmx := proj1 (Forall_forall _ _) Hd _ Hmax). cbn in Hmx.
   repeat split; try assumption; try lia.
 Qed.
+
+(* ---------------------------------------------------------------------------------------------- *)
+(* T3: the delta path.  The transform subtracts neighbours in i64; it returns a column when every
+   step fits an i64 (F10 is the class where one does not), no step is exactly -2^63 and the first
+   value is not i64::MIN (else `max - min` can overflow as in F19), and the maximum is not within
+   2^32 of i64::MAX (else `max - offset` of the range metadata can overflow). *)
+
+Fixpoint diffs (prev : Z) (vs : list Z) : list Z :=
+  match vs with [] => [] | c :: r => (c - prev) :: diffs c r end.
+
+Fixpoint delta_safe (prev : Z) (vs : list Z) : Prop :=
+  match vs with [] => True | c :: r => i64_min <= c - prev <= i64_max /\ delta_safe c r end.
+
+Lemma delta_loop_total : forall vs prev mn mx,
+  delta_safe prev vs ->
+  exists mn' mx',
+    delta_loop prev mn mx vs = Val (diffs prev vs, (mn', mx')) /\
+    mn' <= mn /\ mx <= mx' /\
+    Forall (fun d => mn' <= d <= mx') (diffs prev vs) /\
+    (mn' = mn \/ In mn' (diffs prev vs)) /\ (mx' = mx \/ In mx' (diffs prev vs)).
+Proof.
+  induction vs as [|c vs IH]; intros prev mn mx Hs.
+  - exists mn, mx. cbn. repeat split; try lia; auto.
+  - destruct Hs as [Hd Hs]. cbn [delta_loop diffs]. rewrite sub64_ok by exact Hd. cbn [bind].
+    set (d := c - prev) in *.
+    set (mx1 := if mx <? d then d else mx). set (mn1 := if d <? mn then d else mn).
+    destruct (IH c mn1 mx1 Hs) as (mn' & mx' & E & I1 & I2 & I3 & I4 & I5).
+    rewrite E. cbn [bind]. exists mn', mx'.
+    assert (Hmn1 : mn1 <= mn /\ mn1 <= d /\ (mn1 = mn \/ mn1 = d)) by (subst mn1; destruct (Z.ltb_spec d mn); lia).
+    assert (Hmx1 : mx <= mx1 /\ d <= mx1 /\ (mx1 = mx \/ mx1 = d)) by (subst mx1; destruct (Z.ltb_spec mx d); lia).
+    repeat split; try lia.
+    + constructor; [lia|exact I3].
+    + destruct I4 as [I4|I4]; [|right; now right].
+      destruct Hmn1 as (_ & _ & [H|H]); [left; lia|right; left; lia].
+    + destruct I5 as [I5|I5]; [|right; now right].
+      destruct Hmx1 as (_ & _ & [H|H]); [left; lia|right; left; lia].
+Qed.
+
+Lemma diffs_monotone : forall vs prev,
+  (Forall (fun d => 0 <= d) (diffs prev vs) -> Forall (fun x => prev <= x) vs) /\
+  (Forall (fun d => d <= 0) (diffs prev vs) -> Forall (fun x => x <= prev) vs).
+Proof.
+  induction vs as [|c vs IH]; intros prev; [split; constructor|].
+  destruct (IH c) as [I1 I2]. cbn [diffs]. split; intros H; inversion H as [|? ? H1 H2]; subst.
+  - constructor; [lia|]. eapply Forall_impl; [|exact (I1 H2)]. cbn. intros; lia.
+  - constructor; [lia|]. eapply Forall_impl; [|exact (I2 H2)]. cbn. intros; lia.
+Qed.
+
+Theorem new_boxed_delta_total v0 r mn0 mx0 null :
+  i64s (v0 :: r) -> delta_safe v0 r ->
+  bounded mn0 mx0 (v0 :: r) -> In mn0 (v0 :: r) -> In mx0 (v0 :: r) ->
+  mx0 <= 9223372032559808511 ->                       (* i64::MAX - 2^32 *)
+  v0 <> i64_min -> (forall d, In d (diffs v0 r) -> d <> i64_min) ->
+  exists col, new_boxed (v0 :: r) mn0 mx0 true null = Val col.
+Proof.
+  intros Hx Hs HB Hmn Hmx Htop Hv0 Hnd.
+  unfold new_boxed. cbn [delta_transform].
+  destruct (delta_loop_total r v0 v0 v0 Hs) as (mn & mx & E & I1 & I2 & I3 & I4 & I5).
+  rewrite E. cbn [bind].
+  inversion Hx as [|? ? Hv0r Hxr]; subst.
+  assert (Hmnlo : i64_min < mn).
+  { destruct I4 as [->|I4]; [unfold i64_min in *; lia|].
+    assert (Hne := Hnd _ I4).
+    assert (Hin : Forall (fun d => i64_min <= d <= i64_max) (diffs v0 r)).
+    { clear - Hs. revert v0 Hs. induction r as [|c r IH]; intros v0 Hs; [constructor|].
+      destruct Hs as [H1 H2]. cbn [diffs]. constructor; [exact H1|now apply IH]. }
+    assert (H := proj1 (Forall_forall _ _) Hin _ I4). cbn in H. lia. }
+  assert (Hmxhi : mx <= i64_max).
+  { destruct I5 as [->|I5]; [lia|].
+    assert (Hin : Forall (fun d => i64_min <= d <= i64_max) (diffs v0 r)).
+    { clear - Hs. revert v0 Hs. induction r as [|c r IH]; intros v0 Hs; [constructor|].
+      destruct Hs as [H1 H2]. cbn [diffs]. constructor; [exact H1|now apply IH]. }
+    assert (H := proj1 (Forall_forall _ _) Hin _ I5). cbn in H. lia. }
+  rewrite interval_plain by (unfold i64_min in *; lia). cbn [bind].
+  destruct (choose mn mx (mx - mn)) as [[t off]|] eqn:Ec; [|eauto].
+  destruct (choose_fits mn mx t off) as (Ho & Hz & Hw & Hw'); try lia; [exact Ec|].
+  (* facts about the original values *)
+  assert (Hb0 := proj1 (Forall_forall _ _) HB).
+  assert (Hmn0 : mn0 <= v0) by (apply (Hb0 v0); now left).
+  assert (Hmx0 : v0 <= mx0) by (apply (Hb0 v0); now left).
+  assert (Hmn0i := proj1 (Forall_forall _ _) Hx _ Hmn). cbn in Hmn0i.
+  assert (Hmx0i := proj1 (Forall_forall _ _) Hx _ Hmx). cbn in Hmx0i.
+  apply create_col_total.
+  - constructor.
+    + unfold i64_min, i64_max in *. destruct Ho as [-> | ->]; [specialize (Hz eq_refl)|]; lia.
+    + eapply Forall_impl; [|exact I3]. cbn. intros d Hd.
+      unfold i64_min, i64_max in *. destruct Ho as [-> | ->]; [specialize (Hz eq_refl)|]; lia.
+  - destruct Ho as [-> | ->]; [lia|].
+    destruct (Z.lt_trichotomy mn 0) as [Hneg|[H0|Hpos]].
+    + unfold i64_min, i64_max in *. lia.
+    + lia.
+    + (* all steps positive: the values increase from v0, so min0 >= v0 >= mn *)
+      assert (Hinc : Forall (fun x => v0 <= x) r).
+      { apply (proj1 (diffs_monotone r v0)). eapply Forall_impl; [|exact I3]. cbn. intros; lia. }
+      assert (v0 <= mn0).
+      { destruct Hmn as [<-|Hmn]; [lia|]. exact (proj1 (Forall_forall _ _) Hinc _ Hmn). }
+      unfold i64_min, i64_max in *. lia.
+  - destruct Ho as [-> | ->]; [lia|].
+    destruct (Z.lt_trichotomy mx 0) as [Hneg|[H0|Hpos]].
+    + (* all steps negative: the values decrease from v0 < 0 *)
+      assert (Hdec : Forall (fun x => x <= v0) r).
+      { apply (proj2 (diffs_monotone r v0)). eapply Forall_impl; [|exact I3]. cbn. intros; lia. }
+      assert (mx0 <= v0).
+      { destruct Hmx as [<-|Hmx]; [lia|]. exact (proj1 (Forall_forall _ _) Hdec _ Hmx). }
+      unfold i64_min, i64_max in *. lia.
+    + unfold i64_min, i64_max in *. cbn [wmax] in *. lia.
+    + unfold i64_min, i64_max in *. cbn [wmax] in *. lia.
+Qed.
+
+(* F10: IntColBuffer's statistics allow delta coding for [i64::MIN+1, i64::MAX-1] (the difference
+   is only checked when the value does not increase) and the transform then overflows *)
+Lemma int_finalize_delta_refuted :
+  exists data, i64s data /\
+    let st := istats_push_all istats_init data in
+    st_allow st = true /\ delta_decision st (zlen data) = true /\
+    int_finalize data st None = Panic SubOverflow.
+Proof.
+  exists [i64_min + 1; i64_max - 1]. split.
+  - repeat constructor; unfold i64_min, i64_max; lia.
+  - cbn zeta. repeat split; reflexivity.
+Qed.
